@@ -116,9 +116,10 @@ public:
         if (ev & (EV_EVICT | EV_EVICT_EXPIRED))
             ++ctr->full_inserts;
         rr_pending = false;
-        if (model.cfg.kind == RR && op.kind == INS && keep.size() == 1 && keep[0].victims.size() == 1)
+        const bool rr_single = model.cfg.kind == RR && (op.kind == INS || ((op.kind == INSR || op.kind == INSI) && op.items.size() == 1));
+        if (rr_single && keep.size() == 1 && keep[0].victims.size() == 1)
             rr_stat(cands[0], keep[0].victims[0]);
-        else if (model.cfg.kind == RR && op.kind == INS && cands.size() == 1 && !keep[0].victims.empty())
+        else if (rr_single && cands.size() == 1 && !keep[0].victims.empty())
         {
             // which resident was evicted is only known once the audit has looked: decide there
             rr_pending = true;
@@ -1003,7 +1004,7 @@ private:
                         }
                         else
                             t.insert("C11.count");
-                        if (is_noeffect && op.peek)
+                        if (is_noeffect && op.peek && sighted((int)k))
                             t.insert("C19.peek");
                         d += "audit: key " + std::to_string(k) + " use count " + optstr(row.cnt) + ", specification " + std::to_string(e.count) + "; ";
                     }
